@@ -185,11 +185,43 @@ func (p *Program) lifecycle() *lifecycle {
 			if f.Signature.Recv() != nil {
 				lc.HandlerT = namedOf(f.Signature.Recv().Type())
 			}
+			// the step itself and the helpers of the same handler it calls (a step may be split into helpers), depth 2
+			scanFns := []*ssa.Function{f}
+			for d, frontier := 0, []*ssa.Function{f}; d < 2 && f.Signature.Recv() != nil; d++ {
+				var next []*ssa.Function
+				for _, sf := range frontier {
+					for _, b := range sf.Blocks {
+						for _, in := range b.Instrs {
+							c := callOf(in)
+							if c == nil || c.StaticCallee() == nil || c.StaticCallee().Signature.Recv() == nil || len(c.StaticCallee().Blocks) == 0 {
+								continue
+							}
+							y := c.StaticCallee()
+							if namedOf(y.Signature.Recv().Type()) != namedOf(f.Signature.Recv().Type()) {
+								continue
+							}
+							dup := false
+							for _, q := range scanFns {
+								if q == y {
+									dup = true
+								}
+							}
+							if !dup {
+								scanFns = append(scanFns, y)
+								next = append(next, y)
+							}
+						}
+					}
+				}
+				frontier = next
+			}
 			has := func(pred func(in ssa.Instruction) bool) bool {
-				for _, b := range f.Blocks {
-					for _, in := range b.Instrs {
-						if pred(in) {
-							return true
+				for _, sf := range scanFns {
+					for _, b := range sf.Blocks {
+						for _, in := range b.Instrs {
+							if pred(in) {
+								return true
+							}
 						}
 					}
 				}
@@ -480,6 +512,91 @@ func (p *Program) assumeAvoid(g *IG, assume map[*types.Var]bool) map[edge]bool {
 		}
 	}
 	return out
+}
+
+// assumeRestarting: the edges excluded when a chain step is analysed under "continue ∧ restarting". Besides the two handler
+// flags this covers the context's restart marker itself: the handler's restarting flag is computed as (marker != nil) earlier
+// in the same chain run on the same goroutine, and the marker is cleared only inside the restart step — so a defensive
+// `marker == nil` test in a later step cannot be taken while the flag is true. The correlation is validated, not assumed:
+// every store of the flag is that comparison (or a constant false), and every nil store of the marker in the module lies in
+// the restart step's own (spliced) graph; inside g the test must not be reachable from such a store.
+func (p *Program) assumeRestarting(lc *lifecycle, g *IG) map[edge]bool {
+	out := p.assumeAvoid(g, map[*types.Var]bool{lc.Continue: true, lc.Restarting: true})
+	if lc.RestartingF == nil || lc.Restarting == nil || lc.HandleRestart == nil || !p.flagMirrorsMarker(lc) {
+		return out
+	}
+	clears := nodesWhere(g, func(in ssa.Instruction) bool {
+		st, ok := in.(*ssa.Store)
+		if !ok {
+			return false
+		}
+		f, _ := fieldAddr(st.Addr)
+		return f == lc.RestartingF
+	})
+	for _, ef := range p.edgeFacts(g) {
+		if ef.Field != lc.RestartingF || !ef.Fact.IsNil || ef.Fact.Op != token.EQL {
+			continue
+		}
+		after := false
+		for c := range clears {
+			if g.ReachAfter(c, nil, nil)[ef.E.from] {
+				after = true
+			}
+		}
+		if !after {
+			out[ef.E] = true
+		}
+	}
+	return out
+}
+
+var mirrorCache = map[*lifecycle]int{}
+
+func (p *Program) flagMirrorsMarker(lc *lifecycle) bool {
+	if v, ok := mirrorCache[lc]; ok {
+		return v == 1
+	}
+	good := true
+	nFlag := 0
+	rg := p.igxSkip(lc.HandleRestart, lc.roleFuncs(p))
+	for _, a := range p.fieldAccesses(map[*types.Var]bool{lc.Restarting: true, lc.RestartingF: true}) {
+		if !a.Write {
+			continue
+		}
+		st, isSt := a.In.(*ssa.Store)
+		if !isSt {
+			if a.Fresh {
+				continue
+			}
+			good = false
+			continue
+		}
+		f, _ := fieldAddr(st.Addr)
+		switch f {
+		case lc.Restarting:
+			if b, isC := constBool(st.Val); isC && !b {
+				continue
+			}
+			bo, isB := st.Val.(*ssa.BinOp)
+			if !isB || bo.Op != token.NEQ || !isNilConst(bo.Y) {
+				good = false
+				continue
+			}
+			if lf, _ := fieldLoad(bo.X); lf != lc.RestartingF {
+				good = false
+			}
+			nFlag++
+		case lc.RestartingF:
+			if isNilConst(st.Val) && !a.Fresh && !rg.owns(p, a.Fn) {
+				good = false
+			}
+		}
+	}
+	if nFlag == 0 {
+		good = false
+	}
+	mirrorCache[lc] = map[bool]int{true: 1, false: 2}[good]
+	return good
 }
 
 // effectOnPaths: for the cleanup step — is a call named `name` (method or function name) executed
